@@ -37,6 +37,7 @@ import numpy as np
 import math
 import copy
 import re
+from fractions import Fraction
 
 from . import utils
 from . import _n_word_max, _max_error
@@ -903,8 +904,16 @@ class Fxp():
                 val_dtype = np.int64 if self.signed else np.uint64
 
             # rounding and overflowing
-            new_val = self._round(val * conv_factor , method=self.config.rounding)
+            if isinstance(conv_factor, float) and val.dtype.kind in 'iuO' and val.size > 0 \
+                and all(isinstance(v, (int, np.integer)) for v in val.flat) and max(abs(int(np.max(val))), abs(int(np.min(val)))) >= 2**53:
+                # integers beyond 53 bits scaled by a negative power of 2: a floating point factor would drop their low bits
+                _scaled_val = np.array([Fraction(int(v), 1 << -self.n_frac) for v in val.flat], dtype=object).reshape(val.shape)
+            else:
+                _scaled_val = val * conv_factor
+            new_val = self._round(_scaled_val, method=self.config.rounding)
             new_val = self._overflow_action(new_val, val_min, val_max)
+            if not isinstance(new_val, (np.ndarray, np.generic)):
+                new_val = np.array(new_val, dtype=object)   # (0-dimensional object arrays are unboxed by numpy)
 
             # convert to array of val_dtype
             new_val = new_val.astype(val_dtype)
@@ -1174,9 +1183,10 @@ class Fxp():
         elif np.issubdtype(np.array(val).dtype, np.object_):
             # python objects: integers are kept as they are, floating point values are rounded one by one
             _funcs = {'around': np.around, 'floor': np.floor, 'ceil': np.ceil, 'fix': np.fix, 'trunc': np.trunc}
-            if method in _funcs and any(isinstance(v, (float, np.floating)) for v in np.asarray(val).flat):
+            _exact_funcs = {'around': round, 'floor': math.floor, 'ceil': math.ceil, 'fix': math.trunc, 'trunc': math.trunc}
+            if method in _funcs and any(isinstance(v, (float, np.floating, Fraction)) for v in np.asarray(val).flat):
                 _val = np.asarray(val)
-                rval = np.array([_funcs[method](v) if isinstance(v, (float, np.floating)) else v for v in _val.flat], dtype=object).reshape(_val.shape)
+                rval = np.array([_funcs[method](v) if isinstance(v, (float, np.floating)) else _exact_funcs[method](v) if isinstance(v, Fraction) else v for v in _val.flat], dtype=object).reshape(_val.shape)
             else:
                 rval = val
         elif method == 'around':
